@@ -22,255 +22,318 @@ CHECKS = {
    technique="Coq proof by induction over operation histories (cache invariant) + model/implementation correspondence by vm_compute",
    design="5/C19"),
  "C03": dict(
-   text="Machine-checked proof (Coq 8.16.1) about a Gallina model of Filter.update/reset written line by line "
-        "(key diff incl. removed keys, feat2filter with force, ValueError pre-check, per-feature box cache with "
-        "NaN branch and bound swap, polygon cache pruning and hash invalidation, invalid mask, enable switch, "
-        "limit events through a choice oracle, manual edits, reset, temporary features appearing/disappearing): for every dataset and every history of "
-        "operations, a non-raising application leaves .all/.box/.polygon/.invalid equal to a stateless "
-        "specification of the current settings (cache invariant by induction over the history); exact count and "
-        "subset theorems for the event limit; selection depends on the settings only; the three repaired defects are "
-        "refuted for the old code by witnesses; thorough tier: exhaustive sweep of all 54 240 op sequences of length "
-        "<= 4 over a 15-letter alphabet. Tied to the code on every "
-        "run by vm_compute correspondence on random histories and a stateless Python reference oracle.",
-   note="Trusted: Coq kernel+vm_compute; hand-written model tied by differential testing; seeded numpy choice "
-        "(oracle: distinct, in range, right count, deterministic - checked on every run); point-in-polygon taken "
-        "as per-event data (C15); polygon hash injective on the case; warnings and uint32 wrap of the limit not modelled.",
-   technique="Coq invariant proof over operation histories + vm_compute correspondence + stateless reference oracle",
+   text="Machine-checked proof (Coq 8.16.1) about a Gallina model of the repaired Filter.update/reset (key diff incl. "
+        "removed keys, force, error pre-check, cache reset on failure, box cache with NaN branch and bound swap, polygon "
+        "cache pruned and invalidated by hash, invalid mask, enable switch, limit events via a choice oracle, manual "
+        "edits, temporary features): for every dataset and history of the property's operations (incl. raising "
+        "applications) a non-raising application leaves .all/.box/.polygon/.invalid equal to a stateless specification "
+        "of the settings (cache invariant by induction); also with replaced feature data unless a polygon axis is stale; "
+        "Apply raises iff one of three stated reasons; exact count/subset for every positive limit; selection depends on "
+        "the settings only. Tied on every run by vm_compute correspondence on random histories (thorough: all 30 940 op "
+        "sequences of length <= 4 over a 13-letter alphabet) and a stateless Python reference oracle.",
+   note="Trusted: Coq kernel+vm_compute; hand-written model tied by differential testing only (no translator); seeded "
+        "numpy choice (oracle: distinct, in range, right count, deterministic - checked on every run); point-in-polygon "
+        "is per-event data (C15); polygon hash injective on the case; dataset features are known features; warnings not "
+        "modelled. The four *_refuted theorems are witnesses against earlier, repaired versions of update (tied to no "
+        "code); no open finding.",
+   technique="Machine-checked Coq invariant proof by induction over operation histories + model/implementation correspondence by vm_compute + stateless reference oracle",
    design="5/C03"),
  "C07": dict(
-   text="Machine-checked proof (Coq 8.16.1) about a Gallina model of the mapped-basin machinery (numpy 1-d "
-        "indexing, BasinProxyFeature's three access routes with its cache, store_basin's basinmap0..9 allocation/"
-        "reuse, basin sorting and the lookup passes of __getitem__, map_indices_child2root, the basins branch of "
-        "Export.hdf5): all access routes equal origin[basinmap][index]; the map written by an export composes the "
-        "filters for chains of any depth (induction); allocation is sound and complete; innate features win; the "
-        "full nested lookup returns the origin's data at the file's origin events; export maps a consistent store to a "
-        "consistent store; rtdc_copy/compress/repack keep every lookup. Tied to the code by vm_compute "
-        "correspondence on random pipelines of up to 6 files (mapped/unmapped/internal basins, export chains from "
-        "files and hierarchy children, moved directories, all access patterns and feature kinds).",
-   note="Trusted: Coq kernel+vm_compute; hand-written model tied by differential testing; HDF5/h5py storage, path "
-        "resolution and identifier verification exercised but not modelled; hierarchy child access and the order of "
-        "basins with equal priority key are oracles; remote basins not modelled (C14/C19).",
-   technique="Coq proofs (list/index-map algebra, induction over export chains and store_basin histories) + vm_compute correspondence",
+   text="Machine-checked proof (Coq 8.16.1) about a Gallina model of the mapped-basin machinery (BasinProxyFeature's "
+        "access routes and cache, store_basin's basinmap0..9 allocation/reuse, basin sorting and lookup passes of "
+        "__getitem__, map_indices_child2root, the basins branch of Export.hdf5, find_basin): every access route equals "
+        "origin[basinmap][index]; the map written by an export composes the filters for chains of any depth, also from "
+        "hierarchy children; allocation sound and complete; innate features win; lookup sound and complete; for every "
+        "pipeline of write/export/copy steps meeting their preconditions the store serves the origin's data at the "
+        "origin's events and is acyclic (induction over steps); copies keep every lookup; files moved together resolve. "
+        "Tied on every run by vm_compute correspondence of the same run_steps function on random pipelines (all basin "
+        "kinds, export chains, moved directories, all access patterns) with a raw-h5py oracle.",
+   note="Trusted: Coq kernel+vm_compute; hand-written model tied by differential testing only (no translator); HDF5/h5py "
+        "storage exercised, not modelled; hierarchy child access and the order of basins with equal priority key are "
+        "oracles. Not modelled: out-of-range maps, features of unequal length, '..'/cwd in find_basin, cached "
+        "ancillary/temporary features (C06), remote basins and ignored_basins (C14/C19). No open finding (four defects "
+        "repaired).",
+   technique="Machine-checked Coq proofs (list/index-map algebra, induction over export chains and pipeline steps) + model/implementation correspondence by vm_compute",
    design="5/C07"),
  "C01": dict(
-   text="Machine-checked proof (Coq 8.16.1) about a Gallina model of RTDCWriter (store_feature dispatch, uint casts, "
-        "write_ndarray 1-d and n-d with resize + chunk loop + remainder, write_ragged with its per-writer size cache, "
-        "write_text with the width frozen at creation, store_table, rectify_metadata, replace/reset/append modes, "
-        "re-open points, CHUNK_SIZE_BYTES changes) and the readers: for all operation histories the data read back "
-        "are the concatenation of what was written since the last replace/reset (n-d, mask, trace, contour, table), "
-        "index enumerates 1..N, the event count matches; the two known defects are stated as _refuted/_partial pairs. "
-        "Tied to the code by vm_compute correspondence against raw h5py and an in-memory record oracle through dclab.",
-   note="Trusted: Coq kernel+vm_compute; hand-written model tied by differential testing; HDF5 storage/compression/"
-        "fletcher32, version branding, metadata converters (oracle only). Known findings: C01-log-truncated, C01-dtype-frozen.",
-   technique="Coq induction over write histories (append/chunk-loop algebra) + vm_compute correspondence + in-memory record oracle",
+   text="Machine-checked proof (Coq 8.16.1) about a Gallina model of RTDCWriter (store_feature dispatch, dtype casts "
+        "incl. float32 rounding, write_ndarray resize + chunk loop + remainder, write_ragged, write_text with the width "
+        "frozen at creation, store_table, rectify_metadata, replace/reset/append modes, re-open points, CHUNK_SIZE_BYTES "
+        "changes) and the readers: for any chunk size > 0 a write leaves old ++ new; for all operation histories "
+        "contours, tables, index (1..N) and metadata read back as written since the last replace/reset; the event count "
+        "is the common length of a balanced file. PARTIAL: scalar, n-d, trace and log histories hold under per-dataset "
+        "guards (values fit the dtype / line width frozen by the first write) and are refuted without them (three "
+        "findings). Tied on every run by vm_compute correspondence on random histories against raw h5py and dclab "
+        "read-back, with an in-memory record oracle.",
+   note="Trusted: Coq kernel+vm_compute; hand-written model tied by differential testing only (no translator); HDF5 "
+        "storage/compression/fletcher32; version branding and metadata converters (C11) oracle only; len(ds) oracle "
+        "only. Not covered: empty contour list, NaN in n-d data, float32/int32/uint8 first arrays of scalar features, "
+        "store_basin (C07). Known findings: C01-log-truncated, C01-dtype-frozen, C01-nd-dtype-frozen.",
+   technique="Machine-checked Coq proof by induction over write histories (append/chunk-loop algebra, per-dataset guards) + model/implementation correspondence by vm_compute + in-memory record oracle",
    design="5/C01"),
  "C02": dict(
-   text="Machine-checked proof (Coq 8.16.1) about a Gallina model of Export.hdf5/tsv selection logic and both routes of "
-        "yield_filtered_array_stacks: for every chunk size > 0, data and index list the concatenated stacks are "
-        "data[indices] (order kept, nothing dropped or duplicated, no empty or over-long stack); np.where selects "
-        "exactly the True positions; truncation to the shortest feature; sorted(set(features)); store_filtered_feature "
-        "and the whole export store exactly the selected events per feature kind with index re-enumerated and the "
-        "right event count. Tied to the code by vm_compute correspondence over dict/hdf5/hierarchy/tdms sources.",
-   note="Trusted: Coq kernel+vm_compute; model tied by differential testing; the writer (C01) and HDF5 storage; run "
-        "identifier suffix only shape-checked. Known findings: C02-nonsliceable-source, C02-short-features-indexerror, "
-        "C02-uint-cast-negative.",
-   technique="Coq proofs of chunk/stack/selection algebra for all chunk sizes and index lists + vm_compute correspondence",
+   text="Machine-checked proof (Coq 8.16.1, any event type) about a Gallina model of Export.hdf5/tsv (filter array, "
+        "truncation to the shortest feature, store_filtered_feature, both routes of yield_filtered_array_stacks, "
+        "metadata and run identifier, logs/tables): for every chunk size > 0, data and index list the concatenated "
+        "stacks are data[indices] (order kept, nothing dropped or duplicated, no empty or over-long stack); np.where "
+        "selects exactly the True positions; sorted(set(features)); every stored feature holds exactly the selected "
+        "events, index re-enumerated, one event count; logs, tables, metadata carried; tsv rows. PARTIAL: 'no exception' "
+        "holds under a guard on feature lengths and source kinds (evaluated per case), images are exact within uint8 "
+        "only; the unguarded forms are refuted (five findings). Tied on every run by vm_compute correspondence over "
+        "dict/hdf5/hierarchy/tdms sources with a raw-h5py/root-index oracle.",
+   note="Trusted: Coq kernel+vm_compute; hand-written model tied by differential testing only (no translator); the "
+        "writer (C01) and HDF5 storage; writer dtype effects observed by the oracle, not modelled; uuid4 suffix of the "
+        "run identifier is an oracle value; %.10e rounding not modelled (0.5e-10 bound); filters are C03's, basin values "
+        "C07's. Known findings: C02-nonsliceable-source, C02-short-features-indexerror, C02-short-scalar-indexerror, "
+        "C02-uint-cast-negative, C02-image-cast-uint8.",
+   technique="Machine-checked Coq proofs of chunk/stack/selection algebra for all chunk sizes and index lists (induction) + model/implementation correspondence by vm_compute",
    design="5/C02"),
  "C04": dict(
-   text="Machine-checked proof (Coq 8.16.1) over all histories of a Gallina model of the (repaired) hierarchy code "
+   text="Machine-checked proof (Coq 8.16.1) over all histories of a Gallina model of the repaired hierarchy code "
         "(apply_filter order, _check_parent_filter, HierarchyFilter with its root-id snapshot, retrieve/apply manual "
-        "indices, the four mapper functions, set_temporary_feature, ChildScalar snapshots, box ranges with cache): "
-        "after rejuvenate every child is the parent's view (lengths and columns) at any depth; manual exclusions "
-        "persist for the same root events across arbitrary ancestor edits incl. hidden-and-back; non-scalar view; "
-        "mapper inverses and composition; every member's events are exactly the root events selected by all ancestor "
-        "masks (no duplicates); sibling children sharing ancestors in any alternation. Tied by vm_compute "
-        "correspondence and a root-index-set oracle.",
-   note="Trusted: Coq kernel+vm_compute; model tied by differential testing; md5 as equality of the hashed content; "
-        "polygon filters/limit events are C03's; mask/contour/trace/computed features oracle only; re-included events "
-        "are don't-care (documented all-True quirk).",
-   technique="Coq proofs over all edit/refresh histories (child-is-view, exclusion persistence) + vm_compute correspondence",
+        "indices, the four mapper functions, set_temporary_feature, lazy ChildScalar caches, box ranges incl. deleted "
+        "ones, reset_filter): after rejuvenate every read of a child is the parent's view (lengths, scalar and "
+        "non-scalar columns) for any state of chain and caches, at any depth; a member's events are exactly the root "
+        "events selected by all ancestor masks; manual exclusions persist for the same root events across arbitrary "
+        "ancestor edits incl. hidden-and-back; mapper inverses, composition and error condition; sibling children "
+        "sharing ancestors in any alternation. Tied on every run by vm_compute correspondence with the real classes "
+        "(dict and .rtdc roots) and a root-index-set oracle.",
+   note="Trusted: Coq kernel+vm_compute; hand-written model tied by differential testing only (no translator); md5 as "
+        "equality of the hashed content; oracle only: polygon filters/limit events (C03), half-set ranges, root "
+        "configuration changes, mask/contour/trace/computed and non-scalar temporary features, dtypes; re-included "
+        "events are don't-care (documented all-True quirk). No open finding (three defects repaired).",
+   technique="Machine-checked Coq proofs by induction over all edit/refresh histories (child-is-view, exclusion persistence) + model/implementation correspondence by vm_compute",
    design="5/C04"),
  "C08": dict(
-   text="Machine-checked proof (Coq 8.16.1) about a Gallina model of h5ds_copy/rtdc_copy/basin_definition_copy and the "
-        "compress/repack/condense wrappers over abstract layouts: the chunk iteration covers every index exactly once "
-        "for every rank/shape/chunk shape; copies preserve values, attributes, logs (string conversion lossless), "
-        "tables with attributes, internal basin data and metadata; the copy is idempotent and its output a fixed "
-        "point; every basin definition is preserved (internal ones rewritten to exactly the copied features); condense's "
-        "feature set and scalar equality. Tied by vm_compute correspondence on 13 storage layouts "
-        "written with raw h5py, sha256 of inputs, and the tasks applied to their own output; tdms2rtdc vs the tdms reader.",
-   note="Trusted: Coq kernel+vm_compute; HDF5 filter pipeline and h5o.copy (bytes preserved); RTDCWriter; tdms reader; "
-        "DEFECTIVE_FEATURES predicates evaluated by the real functions. Known findings: C08-condense-empty, "
+   text="Machine-checked proof (Coq 8.16.1) about a Gallina model of h5ds_copy/rtdc_copy/basin_definition_copy, the "
+        "compress/repack/condense wrappers, version branding, the defective-feature markers and tdms2rtdc's event "
+        "selection over abstract layouts: the chunk iteration covers every index exactly once for every rank/shape/chunk "
+        "shape; copies preserve shape, values, dtype class and attributes of the selected features, logs (string "
+        "conversion lossless), tables, internal basin data, metadata and every basin definition, and invent nothing; a "
+        "second copy/compress changes no data; the version chain grows by at most one segment; condense's feature set. "
+        "PARTIAL: totality of condense and the uint32 store of fl?_max are _refuted/_partial pairs (two findings). Tied "
+        "on every run by vm_compute correspondence on raw-h5py storage layouts through the real CLI functions, sha256 of "
+        "inputs, tasks applied to their own output, tdms fixtures vs the tdms reader.",
+   note="Trusted: Coq kernel+vm_compute; hand-written model tied by differential testing only (no translator); HDF5 "
+        "filter pipeline and h5o.copy (bytes preserved); RTDCWriter (C01); tdms reader; 'input never modified' is oracle "
+        "only (sha256); non-copied condense features restate ds[feat] (C06). Unknown top-level groups and group "
+        "attributes are dropped by the copy (outside the statement). Known findings: C08-condense-empty, "
         "C08-tdms-negative-flmax.",
-   technique="Coq proofs (chunk cover for all shapes, copy preservation/idempotence) + vm_compute correspondence",
+   technique="Machine-checked Coq proofs (chunk cover for all shapes by induction + bounded finite sweep, copy preservation/idempotence) + model/implementation correspondence by vm_compute",
    design="5/C08"),
  "C09": dict(
-   text="Machine-checked proof (Coq 8.16.1) about Gallina models of dclab-split and dclab-join incl. Python's "
-        "iterate-while-mutating semantics (Common/PyList.v): split partitions the events for every N and k > 0; join "
-        "processes the inputs in a stable sort by (acquisition time, run index), exports the common features, "
-        "concatenates every column with time/frame/index_online offsets and a fresh index, keeps all logs, never "
-        "raises on well-formed inputs; join(split(ds,k)) reproduces the data; the old string sort key and the old "
-        "pruning loop are refuted by witnesses. Tied by vm_compute correspondence on generated files and a numpy oracle.",
-   note="Trusted: Coq kernel+vm_compute; model tied by differential testing; mktime time zone (TZ=UTC); values are "
-        "multiples of 1/8; availability of computable features is an input. Known finding: C09-split-empty-part.",
-   technique="Coq proofs (partition, stable sort, column concatenation, PyList semantics) + vm_compute correspondence",
+   text="Machine-checked proof (Coq 8.16.1) about Gallina models of the repaired dclab-split and dclab-join incl. "
+        "Python's iterate-while-mutating list semantics (Common/PyList.v): for every N and k > 0 split's parts are the "
+        "events minus skipped empty boundary events, none longer than k; join orders any inputs by (acquisition time, "
+        "run index) stably, exports the features available everywhere, concatenates every column with "
+        "time/frame/index_online offsets and a fresh index, takes metadata from the earliest input, keeps all log names, "
+        "never raises on two or more well-formed inputs and rejects malformed ones. PARTIAL: 'no empty part', "
+        "join(split(ds,k)) = ds and equal trace channel lengths hold under stated guards and are refuted without them "
+        "(two findings). Tied on every run by vm_compute correspondence on generated files, interpreter-semantics cases "
+        "and a numpy oracle.",
+   note="Trusted: Coq kernel+vm_compute; hand-written model tied by differential testing only (no translator); mktime "
+        "time zone (TZ=UTC); strptime/float modelled exactly only on the strict two-digit date/time shape; dyadic "
+        "values; availability of computable features is an input; log contents and tables oracle only; split of tdms "
+        "input not exercised. Known findings: C09-split-empty-part, C09-join-trace-channels-differ.",
+   technique="Machine-checked Coq proofs (partition, stable sort, column concatenation, PyList semantics; induction over lists) + model/implementation correspondence by vm_compute",
    design="5/C09"),
  "C18": dict(
    text="Machine-checked proofs (Coq 8.16.1, exact Z/Q arithmetic) about Gallina models of remove_duplicates, "
-        "cont_moments_cv, vol_revolve/get_volume, the brightness functions, crosstalk compensation and the marching-"
-        "squares core: translation invariance and axis-swap reciprocity of moments/inertia ratios, cubic scaling / "
-        "sign flip / translation invariance of the volume, one-to-one offset shifts of brightness, the compensation "
-        "matrix inverts the spill matrix, a complete marching-squares case-table sweep and edge consistency for every "
-        "image. Refill-reproduces-mask, rotation invariance and volume convergence are oracle runs only (partial).",
-   note="Trusted: Coq kernel+vm_compute; models tied by differential testing incl. the de-cythonised .pyx source; "
-        "binary64 rounding (1e-9 relative tolerance); the global contour/mask statement, rotation invariance and "
-        "convergence to analytic volumes are NOT proved (oracle runs with stated tolerances).",
-   technique="Coq exact-arithmetic proofs (ring/field identities, finite case sweep) + vm_compute correspondence + oracle runs",
+        "cont_moments_cv, raw and principal inertia ratios, vol_revolve/get_volume, the brightness functions, crosstalk "
+        "compensation and the marching-squares core: dedup specification; translation invariance and axis-swap "
+        "reciprocity; the principal ratio is exactly invariant under every rational-tangent rotation, reflection and "
+        "translation, and >= 1 for positive definite moments (proved for triangles); cubic scaling / sign flip / "
+        "translation invariance of the volume; one-to-one offset shifts of brightness; the compensation matrix inverts "
+        "the spill matrix; complete case-table sweep and edge consistency for every image. PARTIAL: "
+        "refill-reproduces-mask, arbitrary real angles and volume convergence are oracle runs only. Every model function "
+        "is run against the code by vm_compute (binary and de-cythonised .pyx).",
+   note="Trusted: Coq kernel+vm_compute; hand-written models tied by differential testing incl. the de-cythonised .pyx "
+        "(decythonize.py, no Coq translator); binary64 rounding (stated tolerances); positive definiteness of general "
+        "polygons is an unproved assumption of the '>= 1' clause (pd_contour evaluated per case). NOT proved: the global "
+        "contour/mask statement, rotation by arbitrary angles, convergence to analytic volumes. No open finding (four "
+        "defects repaired).",
+   technique="Machine-checked Coq exact-arithmetic proofs (ring/field identities, finite case sweep lifted to all images) + model/implementation correspondence by vm_compute + oracle runs",
    design="5/C18"),
  "C20": dict(
    text="Machine-checked proof (Coq 8.16.1) about a Gallina model of the min/max/mean bookkeeping (write_ndarray's "
-        "incremental update with the non-NaN weighting, rtdc_copy's completion, the reader's preference for stored "
-        "attributes, deletion of any subset of attributes): for all write histories, batch partitions and NaN/inf "
-        "placements the reported min, max and exact mean equal nanmin, nanmax and nanmean of the values written "
-        "since the last replace/reset; the old size-weighted mean is refuted by a witness. Tied by vm_compute "
-        "correspondence and a numpy nan* oracle over writer, join, compress, repack, condense, export, hierarchy.",
-   note="Trusted: Coq kernel+vm_compute; model tied by differential testing; rounding of the weighted mean not "
-        "modelled (1e-9 relative tolerance; 1e-5 for float32 ancillary features).",
-   technique="Coq induction over write histories with exact rational means + vm_compute correspondence + numpy oracle",
+        "incremental update with non-NaN weighting and per-writer counts, dtype conversion, rtdc_copy's completion, the "
+        "reader's preference for stored attributes, removal of any attributes, ChildScalar and BasinProxyFeature "
+        "caches): for every feature dtype, interleaving of live writers, append/replace/reset/close, batch partition and "
+        "NaN/inf placement the stored and reported min, max and exact mean equal nanmin, nanmax and nanmean of the "
+        "STORED values; child summaries fresh after refresh; mapped-basin summaries for every map. PARTIAL: guard "
+        "hist_ok (no replace-mode writer next to a live counting writer; evaluated in Coq per case); without it, and for "
+        "plain-ndarray features, the statement is refuted (two findings). Tied on every run by vm_compute correspondence "
+        "and a numpy nan* oracle over writer, CLI tools, export and hierarchy.",
+   note="Trusted: Coq kernel+vm_compute; hand-written model tied by differential testing only (no translator); means are "
+        "exact fractions, rounding not modelled (1e-9 relative; 1e-5 for float32 datasets, so float32 accumulation would "
+        "pass); not covered: float->uint64 conversion of NaN/inf/negatives, uint64 beyond 2^53, remote basins. Eight "
+        "arithmetic lemmas have no code counterpart. Known findings: C20-two-writers-replace-same-size, "
+        "C20-ndarray-summaries-propagate-nan.",
+   technique="Machine-checked Coq proof by induction over write histories with exact rational means + model/implementation correspondence by vm_compute + numpy oracle",
    design="5/C20"),
  "C16": dict(
-   text="Machine-checked proof (Coq 8.16.1) about a Gallina model of downsample_rand, downsample_grid (bad/good masks, "
-        "exact-rational cell index, populate_grid, remove/add/pad adjustment), the limit-events step of Filter.update "
-        "and get_downsampled_scatter's mask translation, with the seeded numpy choice as an oracle: the result is the "
-        "input selected by the returned mask, the count is min(request, eligible) in both invalid-handling modes, the "
-        "dataset-level mask lies inside filter.all and selects exactly the returned points, and the result never "
-        "depends on the global RNG state; the two .pyx defects are _refuted/_partial pairs. Tied by vm_compute "
-        "correspondence against the compiled module AND the de-cythonised .pyx source; the arithmetic pieces of "
-        "downsampling.pyx (norm/cell index, branch conditions and amounts) are TRANSLATED into coq/Gen/DownsampleGen.v on "
-        "every run and proved equal to the model by bridge lemmas, so a semantic edit of the .pyx breaks an obligation.",
-   note="Trusted: Coq kernel+vm_compute; model tied by differential testing; numpy RandomState(47) (oracle hypothesis "
-        "choice_ok checked on every recorded draw); the observed NaN->uint32 cast; float cell index vs exact floor "
-        "(generator avoids ranges divisible by 13 or 23); Cython missing: .pyx executed as de-cythonised Python. "
-        "Known findings: C16-grid-pad-overrequest, C16-grid-constant-axis.",
-   technique="Coq proofs with a choice oracle (subset/count/determinism) + .pyx-to-Coq translator with bridge lemmas + vm_compute correspondence on binary and de-cythonised source",
+   text="Machine-checked proof (Coq 8.16.1) about a Gallina model of downsample_rand, downsample_grid (exact-rational "
+        "cell index, populate_grid, remove/add/pad adjustment, uint32 request conversion, integer arrays), the "
+        "limit-events step of Filter.update and get_downsampled_scatter's mask translation, the seeded numpy choice "
+        "being an oracle: the result is the input selected by the returned mask, the count is min(request, eligible), "
+        "the dataset-level mask lies inside filter.all and selects exactly the returned points, nothing depends on the "
+        "global RNG state. PARTIAL: guards request < 2^32, request <= total when invalid events are kept, non-constant "
+        "axes, integer range fits the dtype; each unguarded form is refuted (four findings). The arithmetic pieces of "
+        "downsampling.pyx are TRANSLATED into coq/Gen/DownsampleGen.v on every run and proved equal to the model by "
+        "bridge lemmas; vm_compute correspondence against the compiled module AND the de-cythonised .pyx.",
+   note="Trusted: Coq kernel+vm_compute; translators downsample_pyx.py (fails closed on textual refactorings) and "
+        "decythonize.py; numpy RandomState(47) (oracle hypothesis choice_ok checked on every recorded draw); the "
+        "observed NaN->uint32 cast; float cell index vs exact floor; logarithm is an oracle; Cython missing: .pyx "
+        "executed as de-cythonised Python. Known findings: C16-grid-pad-overrequest, C16-grid-constant-axis, "
+        "C16-request-uint32, C16-grid-integer-wrap.",
+   technique="Machine-checked Coq proofs with a choice oracle (subset/count/determinism) + .pyx-to-Coq translator with bridge lemmas + model/implementation correspondence by vm_compute on binary and de-cythonised source",
    design="5/C16"),
  "C06": dict(
    text="Machine-checked proof (Coq 8.16.1) about a Gallina model of the ancillary-feature machinery (__contains__, "
-        "__getitem__, is_available with priorities, available_features, hash, sibling outputs, compute_emodulus "
-        "branching) over a recipe registry that a translator REGENERATES from /repo on every run by tracing what each "
-        "recipe's method actually reads: for every registry and history each cache slot holds its recipe's method "
-        "applied to the hashed ingredients; a read equals the read on an empty cache under stated guards; registry "
-        "completeness (uses within declares) by vm_compute over the generated table with the incomplete recipes "
-        "refuted by witnesses; emodulus precedence C > B > A over all key combinations. Tied by vm_compute "
-        "correspondence and a long-lived-vs-fresh dataset oracle.",
-   note="Trusted: Coq kernel+vm_compute; the tracing translator (harness/translators/anc_trace.py); md5 as identity on "
-        "the hashed item list; methods are functions of the values they read; numerics not modelled. Known findings: "
-        "C06-ctc-undeclared-crosstalk, C06-emodulus-available-unreadable, C06-emodulus-stale-viscosity, C06-cached-stays-listed.",
-   technique="Coq cache-coherence proof over histories + registry table regenerated from source (translator) checked by vm_compute + correspondence",
+        "__getitem__, is_available with priorities, available_features, hash, compute_emodulus branching) over a recipe "
+        "registry that a translator REGENERATES from /repo on every run by tracing what each recipe's method and hashed "
+        "req_func read: for every registry and history each cache slot holds its recipe's method applied to the hashed "
+        "ingredients. PARTIAL: a read equals the read on an empty cache, and 'feat in ds' iff readable, for recipes "
+        "whose ingredients are all in the cache key (chains of depth <= 2) - by vm_compute for every generated row "
+        "except the emodulus and two-channel crosstalk instances, where it is false (four findings, witnesses evaluated "
+        "on every run); registry completeness of the other rows; emodulus precedence C > B > A over all key "
+        "combinations. Tied by vm_compute correspondence and a long-lived-vs-fresh dataset oracle.",
+   note="Trusted: Coq kernel+vm_compute; the tracing translator harness/translators/anc_trace.py; md5 as identity on the "
+        "hashed item list; methods are functions of the values they read; numerics not modelled; chains of length >= 3 "
+        "not proved; fuel sufficiency by correspondence only. Known findings: C06-ctc-undeclared-crosstalk, "
+        "C06-emodulus-available-unreadable, C06-emodulus-stale-viscosity, C06-cached-stays-listed.",
+   technique="Machine-checked Coq cache-coherence invariant proof over histories + registry table regenerated from source (tracing translator) swept by vm_compute + model/implementation correspondence by vm_compute",
    design="5/C06"),
  "C11": dict(
-   text="Machine-checked proof (Coq 8.16.1) about a Gallina model of the nine metadata converters as written, key "
+   text="Machine-checked proof (Coq 8.16.1) about a Gallina model of the ten metadata converters as written, key "
         "validation (incl. online_filter/filtering pattern keys, ml_score features, user section), "
-        "ConfigurationDict.__setitem__/update, config-file entries, the h5py attribute layer and store_metadata + "
-        "parse_config, over the key/converter table that a translator REGENERATES from dclab.definitions on every run: "
+        "ConfigurationDict/Configuration item, update and section assignment, .cfg lines and files, the h5py attribute "
+        "layer, store_metadata + parse_config and n export/tool hops, for any key table and stated for the one a "
+        "translator REGENERATES from dclab.definitions on every run (with probes of the real meta_logic functions): "
         "converter and assignment idempotence for all values, case-insensitivity, rejection of unknown/empty/None, "
-        "agreement of all setting routes, documented type and attribute round trip for every generated row.",
+        "agreement of all setting routes, documented type for every key, attribute round trip and stability over any "
+        "number of hops (fnumber keys PARTIAL: value equality only). Table-specific parts are vm_compute sweeps; every "
+        "model entry point is tied by vm_compute correspondence plus a code-independent value oracle.",
    note="Trusted: Coq kernel+vm_compute; translator harness/translators/tables.py; h5py attribute layer modelled and "
-        "tied by correspondence; float(str)/repr/lower modelled for ASCII and multiples of 1/8; binary64 rounding not modelled.",
-   technique="Coq proofs over value representations + table regenerated from source (translator) swept by vm_compute + correspondence",
+        "tied by correspondence; float(str)/repr/lower modelled for ASCII and multiples of 1/8 below 1e16 - other inputs "
+        "are judged by the model-independent oracle only; binary64 rounding and the %.12f precision of .cfg text not "
+        "modelled; disable_checks=True is outside the property. No open finding (nine defects repaired).",
+   technique="Machine-checked Coq proofs by structural induction over value representations + key table regenerated from source (translator) swept by vm_compute + model/implementation correspondence by vm_compute",
    design="5/C11"),
  "C12": dict(
-   text="Machine-checked proof (Coq 8.16.1) that every analysis entry point of the model (statistics, KDE scatter/"
-        "contour, quantile levels, downsampled scatter, tsv) is core o purge o select-mask with the estimators as "
-        "arbitrary Section variables: non-interference of excluded events, equality with the dataset restricted to "
-        "the selected events, disabled filtering uses all events; exact definitions over Z of events, mean, median, "
-        "mode bin, percentile brackets (with the one-event slack numpy's definition needs; the no-slack form is "
-        "refuted); the statistics method inventory is REGENERATED from /repo (stat_methods.py) and compared with the "
-        "model's table. PARTIAL: the estimators' numerics are differential testing against numpy/scipy reference estimators.",
-   note="Trusted: Coq kernel+vm_compute; estimator numerics NOT proved (reference estimators with stated tolerances); "
-        "model tied by correspondence and a three-dataset metamorphic oracle (filtered / restricted / adversarial values).",
-   technique="Coq non-interference proofs with abstract estimators + exact statistics definitions + metamorphic/differential correspondence",
+   text="Machine-checked proof (Coq 8.16.1) that every analysis entry point of the model (statistics, KDE "
+        "scatter/contour, quantile levels, downsampled scatter, tsv) is core o purge o select-mask with the estimators "
+        "as arbitrary Section variables: non-interference of excluded events, equality with the dataset restricted to "
+        "the selected events, disabled filtering uses all events; exact definitions of events, mean, median, SD, mode "
+        "bin, percentile and quantile-level brackets (one-event slack; the no-slack form is refuted); the statistics "
+        "method inventory is REGENERATED from /repo (stat_methods.py, fails closed) and compared with the model's. Every "
+        "model function used in a theorem is tied to the code by vm_compute correspondence (stand-in estimators). "
+        "PARTIAL: the estimators' numerics are not proved - metamorphic (filtered / restricted / adversarial) and "
+        "differential testing against numpy/scipy references.",
+   note="Trusted: Coq kernel+vm_compute; translator harness/translators/stat_methods.py; estimator numerics NOT proved "
+        "(reference estimators, rtol 1e-12; float32 arithmetic is rounding); downsample_grid is a stand-in (C16); flow "
+        "rate and bin size are inputs. Outside: config changes take effect at apply_filter(). No open finding of its own "
+        "(four defects repaired; C16-grid-constant-axis is a listed exception).",
+   technique="Machine-checked Coq non-interference proofs with abstract estimators + exact statistics definitions + method inventory translator + model/implementation correspondence by vm_compute + metamorphic/differential oracle",
    design="5/C12"),
  "C13": dict(
    text="Machine-checked proof (Coq 8.16.1) about a Gallina model with one Boolean rule per violation-level check_* "
         "method over an abstract file record built from raw h5py; the check inventory, levels and key tables are "
-        "REGENERATED from /repo's check.py by an ast translator and compared by vm_compute (fails closed on a new "
-        "method): files produced by the writer closure from complete consistent input have no violations; one "
-        "implication per cue named in the property for arbitrary unrelated content; same violations after a content-"
-        "preserving copy; order independence. Tied by correspondence over every write path and 36 corruption kinds.",
-   note="Trusted: Coq kernel+vm_compute; translator harness/translators/check_inventory.py; alert/info cues and message "
-        "texts not modelled; reader's defective-feature detection. Known findings: C13-fl-checks-need-flmax, "
-        "C13-export-subset-channel-count.",
-   technique="Coq decision-rule implications + inventory regenerated from source (ast translator) + correspondence with seeded corruptions",
+        "REGENERATED from check.py by an ast translator and compared by vm_compute (fails closed on a new method): files "
+        "closed by the writer from complete, consistent input have no violations; one _flagged implication per cue named "
+        "in the property under arbitrary unrelated content; checker total; order independence; verify-dataset exit "
+        "status. PARTIAL: export/split/join/condense output clean under guards, fluorescence cues need a stored fl?_max "
+        "- refuted otherwise (two findings); 'same violations after compress/repack' proved for dclab-written files and "
+        "repack without external data, refuted by design for corrupted files. Tied on every run by vm_compute "
+        "correspondence over every write path and seeded raw-h5py corruptions.",
+   note="Trusted: Coq kernel+vm_compute; translator harness/translators/check_inventory.py; abstraction guard: members "
+        "of /events are HDF5 objects of the right kind and groups form a tree (else the real checker raises; counted, no "
+        "alarm); alert/info cues and message texts not modelled; tdms2rtdc, non-internal basins and basin rewriting not "
+        "covered. Known findings: C13-fl-checks-need-flmax, C13-export-subset-channel-count.",
+   technique="Machine-checked Coq decision-rule implications + inventory regenerated from source (ast translator) compared by vm_compute + model/implementation correspondence by vm_compute with seeded corruptions",
    design="5/C13"),
  "C15": dict(
    text="Machine-checked proof (Coq 8.16.1) about the crossing predicate that a translator REGENERATES from "
-        "_shared/geometry.pyx on every run (bridge lemma: generated predicate = cross-multiplied model predicate): "
-        "half-open rule equals parity of proper crossings in general position; perturbation characterisation off the "
-        "boundary; invariance under rotation, reversal, closing and repeated vertices; inversion is the complement; a "
-        "complete finite sweep against a winding-number evaluator; .poly save/load round trip in a character-level "
-        "model (partial, with refuting witnesses for names with blanks/line breaks).",
-   note="Trusted: Coq kernel+vm_compute; translators pnpoly_pyx.py and decythonize_geometry.py; NOT proved: independence "
-        "of the parity from the ray direction (finite sweep + oracle only) and binary64 rounding (points within 2^-40 "
-        "relative of an edge excluded); Cython missing: .pyx executed as de-cythonised Python next to the binary. "
-        "Known finding: C15-name-blanks.",
-   technique="Coq proofs about a predicate translated from the .pyx source (translator + bridge lemma) + correspondence on binary and de-cythonised source",
+        "_shared/geometry.pyx on every run (bridge lemma: generated predicate = cross-multiplied model predicate): for "
+        "every polygon and point off the boundary the loop's result is the parity of the quadrant winding number; the -x "
+        "ray agrees; half-open rule = parity of proper crossings in general position; perturbation characterisation; "
+        "invariance under rotation, reversal, closing and repeated vertices; filter() with inversion; copies. .poly "
+        "persistence (character-level model, exact decimal parser): save/import into any consistent registry keeps "
+        "order, axes, name, inversion, points and classification, ids fresh and distinct. PARTIAL: refuted for names "
+        "with outer blanks/line breaks (one finding). Tied on every run by vm_compute correspondence against the binary "
+        "and the de-cythonised source with exact Fraction margins.",
+   note="Trusted: Coq kernel+vm_compute; translators pnpoly_pyx.py and decythonize_geometry.py; NOT proved: parity of a "
+        "ray in an arbitrary direction (random generic direction in the oracle only) and binary64 rounding (points "
+        "within 2^-47 relative of an edge skipped, counted); np.float64() rounds correctly; Cython missing: .pyx "
+        "executed as de-cythonised Python next to the binary. Known finding: C15-name-blanks.",
+   technique="Machine-checked Coq proofs (winding-number telescoping, induction over edges) about a predicate translated from the .pyx source (translator + bridge lemma) + model/implementation correspondence by vm_compute on binary and de-cythonised source",
    design="5/C15"),
  "C17": dict(
-   text="Machine-checked proof (Coq 8.16.1): the repaired cache-key encoding (tagged, length-prefixed, dtype/shape/"
-        "argument counts) is injective and the old concatenation is refuted by concrete collisions; for any injective "
-        "key, any call/mutation history and any capacity the FIFO memo table returns the fresh value, stays bounded "
-        "and aligned; file-hash cache fresh under the (mtime_ns, size) hypothesis; LazyContourList and per-object "
-        "array caches fresh for all histories over a heap model with writable flags (aliasing refuted without the "
-        "read-only fix). Tied by correspondence incl. the bytes actually fed to md5.",
-   note="Trusted: Coq kernel+vm_compute; md5 collision-freeness (explicit hypothesis); memoised functions as oracles; "
-        "file system mtime behaviour (hypothesis, derived for a monotone clock).",
-   technique="Coq injectivity proof of the key encoding + memo-table invariant over call histories + correspondence on key bytes and hit patterns",
+   text="Machine-checked proof (Coq 8.16.1): the repaired cache-key encoding (type tags, length-prefixed chunks, "
+        "dtype/shape/argument counts, containers and masked arrays as counted sequences) is injective on call "
+        "signatures; for any history of calls, in-place modifications, clear_cache and MAX_SIZE changes the FIFO memo "
+        "table returns the fresh value, stays aligned and bounded by the largest capacity in force; LazyContourList and "
+        "the per-object array caches (H5ScalarEvent, ChildScalar, BasinProxyFeature, RTDC_Dict, ancillary) are fresh for "
+        "all histories over a heap model with writable flags; ufunc summaries fresh when rejuvenated. PARTIAL: hashfile "
+        "is fresh if (mtime_ns, size) determines the content, ancillary features if obj2bytes is injective (one layout); "
+        "refuted without these guards (two findings). Tied by vm_compute correspondence on values/dtypes and a collision "
+        "search on the md5 input.",
+   note="Trusted: Coq kernel+vm_compute; hand-written model tied by differential testing only (no translator); md5 "
+        "collision-freeness (explicit hypothesis); memoised functions as oracles; file system mtime behaviour (derived "
+        "for a monotone clock). *_refuted/_collision theorems about key_old/copy_out/ro document repaired code, tied to "
+        "nothing. Not checked: other lru_cache users, arrays above 40 kB, mean()/copy=False. Known findings: "
+        "C17-hashfile-same-stat, C17-obj2bytes-dtype.",
+   technique="Machine-checked Coq injectivity proof of the key encoding + memo-table/heap invariants by induction over call histories + model/implementation correspondence by vm_compute on values, key bytes and hit patterns",
    design="5/C17"),
  "C10": dict(
    text="Machine-checked proof (Coq 8.16.1) about an abstract file system and the per-output-file protocol automaton of "
-        "the six CLI tasks (setup unlinks, create, writes, close, append rounds, single last rename) with kill/raise/"
-        "unwind fault semantics: for every protocol word of any length and every fault position and kind the output "
-        "path is absent, old-complete or the complete fault-free result, inputs untouched, partial data only at "
-        "temporary names; restartability; temporary-name arithmetic of setup_task_paths. Tied to the code by the "
-        "translator cli_trace.py (operation traces of the real tasks recorded on every run and accepted by "
-        "vm_compute, model predictions compared with real fault runs, strace cross-check) and a fault-enumeration "
-        "oracle in child processes (raise at op k, raise after op k, os._exit before op k, SIGKILL at random times).",
+        "the six CLI tasks (setup unlinks, create, writes, close, append rounds, single last rename) with "
+        "kill/raise/unwind fault semantics: for every protocol word and every fault position and kind the output path is "
+        "absent, old-complete or the complete fault-free result, inputs untouched, partial data only at temporary names; "
+        "restartability; setup_task_paths for arbitrary names and output lists: temporary name <out>~, it refuses iff an "
+        "output or temporary path is an input and unlinks no input. Tied to the code by the translator cli_trace.py "
+        "(operation traces of the real tasks recorded on every run and accepted by vm_compute, predictions compared with "
+        "real fault runs, strace cross-check) and fault enumeration in child processes with a deterministic floor (raise "
+        "at/after op k with rotating exception types, os._exit, signals).",
    note="Trusted: Coq kernel+vm_compute; translator harness/translators/cli_trace.py and the completeness of its "
-        "wrappers; NOT modelled: rename/unlink atomicity, HDF5 behaviour when killed mid-write, power loss. Assumes the "
-        "output path does not alias an input; split does not remove stale temporary files of a failed earlier run.",
-   technique="Coq invariant proof over protocol traces + trace translator + fault enumeration on the real tasks",
+        "wrappers (the clauses on inputs rest on 'the real trace is accepted'); NOT modelled: rename/unlink atomicity, "
+        "HDF5 behaviour when killed mid-write (real fault runs only), power loss, several simultaneous faults, "
+        "file-level symlinks (oracle only). Split does not remove stale temporary files of a failed earlier run. No open "
+        "finding (two defects repaired).",
+   technique="Machine-checked Coq invariant proof by induction over protocol traces + trace translator (traces accepted by vm_compute) + fault enumeration on the real tasks",
    design="5/C10"),
  "C05": dict(
-   text="Machine-checked proof (Coq 8.16.1, over Q) about a Gallina model of get_emodulus: the scaling laws with their "
-        "guards, normalisation, the pixelation offset formula, barycentric interpolation inside a triangle, the NaN-"
-        "outside rule, both computation routes, numpy broadcasting of per-event viscosities: each route equals the "
-        "small specification (scaled piecewise-linear interpolation) relative to an ARBITRARY triangulation function; "
-        "routes agree; per-event independence and permutation equivariance; proportionality to viscosity and flow "
-        "rate on both routes; joint geometric rescale invariance (proved also for the real pixelation formula); "
-        "registered and built-in LUTs are never modified by any sequence of calls (load.py model); NaN iff in no "
-        "triangle; node values, min/max bounds, shared edges. PARTIAL: qhull's triangulation, exp, the viscosity "
-        "models and rounding are oracles; the harness hands scipy's simplices and math.exp values to the model.",
-   note="Trusted: Coq kernel+vm_compute (Lqa/lra over Q, no Reals); qhull Delaunay (oracle; tiling, non-degeneracy and "
-        "empty circumcircle checked per run), np.exp (a function of its argument), viscosity models (transcribed in "
-        "the harness and compared with the real functions), binary64 rounding (1e-9 relative tolerance; NaN sets "
-        "compared exactly outside a 1e-9 band around the hull / 1e-12 around triangle edges).",
-   technique="Coq proofs over Q relative to a triangulation oracle + vm_compute correspondence with scipy's simplices + metamorphic oracle",
+   text="Machine-checked proof (Coq 8.16.1, over Q) about a Gallina model of the repaired get_emodulus (scaling laws "
+        "with guards, normalisation, pixelation offset, barycentric interpolation, NaN-outside rule, global and "
+        "per-event viscosity routes, np.array(copy=) heap semantics) and load.py's LUT registry: each route equals the "
+        "scaled piecewise-linear interpolation relative to an ARBITRARY triangulation function; routes agree; per-event "
+        "independence; proportionality to viscosity and flow rate; geometric rescale invariance (also for the real "
+        "pixelation formula); NaN iff outside the hull for every covering triangulation; callers' arrays unchanged with "
+        "copy=True, result pure; tables and registry never modified by any call history. PARTIAL: qhull's triangulation, "
+        "exp, viscosity models and rounding are oracles. Every model entry point is tied by vm_compute correspondence "
+        "with scipy's simplices, plus an independent reference oracle.",
+   note="Trusted: Coq kernel+vm_compute (Lqa/lra over Q, no Reals); hand-written model (no translator); qhull Delaunay "
+        "(oracle; tiling and non-degeneracy checked per run), np.exp (a function of its argument), viscosity models "
+        "(compared with the real functions), binary64 rounding (1e-9 relative; NaN sets compared exactly outside a 1e-9 "
+        "band around the hull and 1e-12 around sliver edges); aliased inputs with copy=False are outside the property. "
+        "No open finding (two defects repaired).",
+   technique="Machine-checked Coq proofs over Q relative to a triangulation oracle (algebraic identities, induction over call histories) + model/implementation correspondence by vm_compute with scipy's simplices + metamorphic oracle",
    design="5/C05"),
  "C14": dict(
    text="Machine-checked proof (Coq 8.16.1) about a Gallina model of basin retrieval over an arbitrary world of files "
-        "(basins_retrieve with priority sort, the ignored-key cut, format-class permission check, identifier "
-        "verification, availability oracle; build/lookup on explicit fuel): opening terminates for every world "
-        "(fuel = distinct keys + 1 is never exhausted; the set of not-yet-ignored keys strictly decreases along every "
-        "followed edge), no ignored key is instantiated at any depth, a non-hdf5 root never opens a file by local "
-        "path at any depth, data are only served through existing matching basins, listed features are justified by "
-        "reachable basins and lie within the declared feature lists; the per-format permission flags and basin "
-        "class types are REGENERATED from /repo by a translator (basin_flags.py) and proved equal to the model's. "
-        "Tied by correspondence on exhaustive and random basin graphs opened locally and through "
-        "RTDC_HTTP / RTDC_S3 against loopback servers.",
-   note="Trusted: Coq kernel+vm_compute; model tied by differential testing; availability is an oracle fixed by the "
-        "world; NOT modelled: availability-checker threads, DCOR transport (unreachable here). Known finding: "
-        "C14-mismatch-listed-unverified.",
-   technique="Coq termination/measure proof and reachability invariants over arbitrary basin graphs + vm_compute correspondence on generated graphs",
+        "(basins_retrieve with priority sort, ignored-key cut, permission check, identifier verification, availability "
+        "oracle): opening terminates for every world (the not-yet-ignored keys strictly decrease along every followed "
+        "edge), the mapping-feature lookup terminates, no ignored key is instantiated, no file is opened by local path "
+        "from or below a non-hdf5 dataset, served data come only from existing matching basins, offered features lie "
+        "within the declared lists. PARTIAL: 'same measurement only' needs referrers with an identifier, 'mismatch not "
+        "listed' a guard; refuted otherwise (two findings). Permission flags, basin classes and basins_retrieve on stubs "
+        "are REGENERATED from /repo (basin_flags.py) and proved equal to the model's. Tied by vm_compute correspondence "
+        "on exhaustive and random basin graphs opened locally and via HTTP/S3/DCOR loopback servers.",
+   note="Trusted: Coq kernel+vm_compute; translator harness/translators/basin_flags.py; otherwise hand-written model "
+        "tied by differential testing; availability is an oracle fixed by the world; NOT modelled: availability-checker "
+        "threads, transient availability, real DCOR/S3 services (fake loopback APIs), Windows paths, values through "
+        "mapped basins (C07). Known findings: C14-mismatch-listed-unverified, C14-idless-referrer-unchecked.",
+   technique="Machine-checked Coq termination/measure proof and reachability invariants over arbitrary basin graphs + flag translator with bridge theorems + model/implementation correspondence by vm_compute on generated graphs",
    design="5/C14"),
 }
 
